@@ -83,4 +83,11 @@ CHECKS = {
         "quick": {"shards": 16, "budget_s": 40, "min_evals": 200, "min_counters": {"acks": 5000, "appends_rejected_as_expected": 3000}},
         "thorough": {"shards": 48, "parallel": 16, "budget_s": 300, "min_evals": 5000},
     },
+    "C03": {
+        "engine": "vp-store", "level": "exploration",
+        "rule": "a generated history of 50-120 accepted transactions (single/multi-event, interleaved streams inside a transaction, 1-3 partitions per bucket, record sizes straddling the 2 KiB/4 KiB reader buffers and the 64 KiB cache block) is written into three layouts: one large open segment, 128 KiB segments (many sealed + open), and the latter after reopen; every partition and stream is scanned from starts {0, last, last+1, last+1000, u64::MAX, first/middle/last event of a multi-event transaction, random} x {forward, reverse} x consumption {next(), next_batch(1,2,3,7,50,1000)} (two sampled modes per query in quick, all seven in thorough). Oracle: the model's lists; forward = exact flattened equality; reverse = same set of events at or before the start, every group inside one transaction, groups in non-increasing order, content equal. non-trivial = distinct (history, layout, subject, start, direction, mode) whose range spans >= 2 segments or starts inside a multi-event transaction",
+        "assumptions": A_COMMON + ["reverse rule taken literally from the statement: a group may repeat events of its own transaction, groups never go back up"],
+        "quick": {"shards": 16, "budget_s": 45, "min_evals": 100000, "min_counters": {"layouts_queried": 100}},
+        "thorough": {"shards": 48, "parallel": 16, "budget_s": 400, "min_evals": 3000000, "extras": ["asan_store"]},
+    },
 }
